@@ -485,3 +485,25 @@ func VerifWalk(n int) int {
 	})
 	return visited
 }
+
+// VerifExpect: what the configuration of topology topo says about an address, computed from the pool definitions
+// alone (range end points compared as integers), independently of the tables ConfigurePool builds: the node subnets
+// it is routable from and its mask / gateway / VLAN.
+func VerifExpect(topo int, ip string) (e VerifEntry, found bool) {
+	pools, _, _ := VTopology(topo)
+	x := nets.IPToInt(net.ParseIP(ip))
+	for _, p := range pools {
+		for _, r := range p.IPRanges {
+			if nets.IPToInt(r.First) <= x && x <= nets.IPToInt(r.Last) {
+				e.IP = ip
+				for _, ns := range p.NodeSubnets {
+					e.NodeSubnets = append(e.NodeSubnets, ns.String())
+				}
+				sort.Strings(e.NodeSubnets)
+				e.Mask, e.Gateway, e.Vlan = p.Mask.String(), p.Gateway.String(), p.Vlan
+				return e, true
+			}
+		}
+	}
+	return e, false
+}
